@@ -93,8 +93,12 @@ func genDataset(r *rand.Rand, idx int, nt int) *dataset {
 			d.Tags[model.SeriesKey(se)] = se
 			// one series per measurement never carries ff (a whole-column null)
 			noFF := si == 5
-			for _, ts := range times {
-				if r.Float64() >= density {
+			for ti, ts := range times {
+				// the oldest and the newest timestamp: most series carry a full row there with
+				// values that differ from series to series, so that first()/last() over any
+				// group of >= 2 series is a tie on time with different values
+				edge := (ti == 0 || ti == len(times)-1) && si%4 != 3
+				if !edge && r.Float64() >= density {
 					continue
 				}
 				p := model.Point{Mst: mst, Tags: se, T: ts, Fields: map[string]model.Value{}}
@@ -108,6 +112,18 @@ func genDataset(r *rand.Rand, idx int, nt int) *dataset {
 				}
 				if len(p.Fields) == 0 {
 					p.Fields["fi"] = genValue(r, 'i')
+				}
+				if edge {
+					k := int64(si)
+					if ti == 0 {
+						k = int64(len(series) - si)
+					}
+					p.Fields["fi"] = model.Int(k - 6)
+					p.Fields["fb"] = model.Bool(si%2 == 0)
+					p.Fields["fs"] = model.Str(fmt.Sprintf("s%d", si%6))
+					if !noFF {
+						p.Fields["ff"] = model.Float(float64(2*k-11) / 8)
+					}
 				}
 				part := 0
 				switch x := r.IntN(10); {
